@@ -20,6 +20,9 @@ Time is in nanoseconds, `K p = qps/10^9` is what one nanosecond refills.
 * `c06_unserialised_overadmits` — without the mutex the bound fails (the 4-call schedule of
   findings/C06-stale-clock-overadmit): the hypothesis "clock readings reach the bucket in order" is necessary.
 * `c06_lower`, `c06_lower_judge`, `c06_fresh_full` — never stricter than configured.
+* `c06_in_force`, `c06_in_force_token_bucket` — after every history of legal `Sync`s (type changes in any direction,
+  delete / re-add, global members, any strategy) every schema is served by a limiter of its type with its configured
+  LOCAL parameters.
 * `c06_resize_same`, `c06_resize_changed` — `Resize` is the identity for unchanged parameters, a fresh (full)
   bucket otherwise; `c06_history` — whole histories of acquires and resizes satisfy the judge the harness applies
   to the real code.
@@ -217,6 +220,59 @@ theorem c06_history (qps burst : Nat) (hb : burst < 4294967296) (ops : List Op) 
       exact ⟨hz, [], rfl, rfl, trivial, by intro x hx; cases hx⟩
   exact judge_history ns_ok Rat.le_refl params_valid ops (Bucket.new qps burst) [] 0 hb hf Rat.le_refl hs hnew
 
+/-! ## which limiter is in force after any history of reconfigurations -/
+
+/-- **After every history** of `UpstreamLimiter.Sync`s with legal specs (distinct names; exactly one local member per
+    schema, a `global*` member only next to its local one; any strategy) interleaved with requests — the same name
+    changing type in any direction, being deleted and re-added, carrying a global bucket or not — no `Sync`
+    dereferences nil, the last synced spec is in force, and **every schema of it is served by a limiter of its own
+    type with its configured LOCAL parameters** (`allInForce`; the model of `NewFlowControl`, `localWrapper.Sync`,
+    `syncLocalFlowControls`). -/
+theorem c06_in_force (A : Arith) (ops : List ULOp) (hl : opsLegal ops = true) :
+    ∃ u, UL.runOps A UL.init ops = some u ∧ u.current = lastSpec [] ops ∧ allInForce ratOps u = true := by
+  obtain ⟨u, h1, h2, h3⟩ := ul_runOps_ok A ops UL.init hl (ulInv_init ratOps_ok)
+  exact ⟨u, h1, h3, allInForce_of_inv ratOps_ok u h2⟩
+
+/-- spelled out for a token-bucket schema: the limiter serving it is a token bucket with exactly
+    `(tokenBucket.qps, tokenBucket.burst)` — whatever else the schema carries (`globalTokenBucket`, strategy) and
+    whatever served that name before -/
+theorem c06_in_force_token_bucket (A : Arith) (ops : List ULOp) (hl : opsLegal ops = true)
+    (n : Nat) (s : Schema) (hm : (n, s) ∈ lastSpec [] ops) (q b : Nat) (htb : s.tb = some (q, b)) :
+    ∃ u bk, UL.runOps A UL.init ops = some u ∧ u.load n = some (.tb bk) ∧ bk.qps = q ∧ bk.burst = b := by
+  obtain ⟨u, h1, h2, h3⟩ := ul_runOps_ok A ops UL.init hl (ulInv_init ratOps_ok)
+  have h3' : u.current = lastSpec [] ops := h3
+  rw [← h3'] at hm
+  have hlk := lookup_of_mem_legal u.current n s h2.legal hm
+  obtain ⟨w, hw1, hw2⟩ := h2.cur n s hlk
+  have hok := h2.all n w hw1 s hw2
+  have hlegal : schemaLegal s = true := by
+    have : ∀ (sp : Spec), specLegal sp = true → (n, s) ∈ sp → schemaLegal s = true := by
+      intro sp
+      induction sp with
+      | nil => intro _ h; cases h
+      | cons x r ih =>
+        intro hl hm
+        simp only [specLegal, Bool.and_eq_true] at hl
+        rcases List.mem_cons.1 hm with h | h
+        · rw [← h] at hl; exact hl.1.2
+        · exact ih hl.2 h
+    exact this u.current h2.legal hm
+  have hload : u.load n = w.fc := by unfold UL.load; rw [hw1]; rfl
+  rcases s with ⟨ex, mi, gmi, tb, gtb, st⟩
+  simp only at htb
+  subst htb
+  cases ex <;> cases mi <;> cases gmi <;> cases gtb <;> simp [schemaLegal] at hlegal <;>
+    (cases hfc : w.fc with
+     | none => rw [hfc] at hok; simp [inForceOK, guessType, see] at hok
+     | some l =>
+       rw [hfc] at hok
+       cases l with
+       | exempt => simp [inForceOK, guessType, see] at hok
+       | mi m => simp [inForceOK, guessType, see] at hok
+       | tb bk =>
+         simp [inForceOK, guessType, see, ratOps] at hok
+         exact ⟨u, bk, h1, by rw [hload, hfc], hok.1, hok.2⟩)
+
 /-! ## non-vacuity: the hypotheses are satisfiable by a concrete, non-trivial bucket -/
 
 /-- `qps = 3`, `burst = 10` -/
@@ -254,5 +310,11 @@ example : (Sys.exec Arith.ns p310 (Sys.init State.init 63900000000000000000)
 /-- the mutex excludes: caller 1 cannot take it while caller 0 holds it -/
 example : Sys.exec Arith.ns p310 (Sys.init State.init 0) [.call 0, .call 1, .lock 0, .lock 1] = none := by
   decide +kernel
+
+/-- a legal history with a type change, a global bucket and a request -/
+example : opsLegal
+    [.sync [(1, { exempt := false, mi := some 5, gmi := none, tb := none, gtb := none, strategy := 0 })],
+     .sync [(1, { exempt := false, mi := none, gmi := none, tb := some (5, 10), gtb := some (1000, 2000), strategy := 2 })],
+     .acquire 1 63900000000000000000] = true := by decide
 
 end KG.Props.C06
